@@ -198,6 +198,15 @@ class Pool:
                         self.calls.append(("FWD", lst, "FWD %s 0 %d - 12 %s - -" % (lst, cap, common.wide(w))))
             for u in self.shared_text:
                 self.calls.append(("FWD", lst, "FWD %s %d %d - 12 %s - -" % (lst, rng.choice([0, 4]), rng.choice([3, len(u), 40]), common.wide(u))))
+            # a cursor BEHIND the first NUL of the caller's array, with the modes that keep the word at the cursor as
+            # computer braille: the region is computed on the caller's array, the passes see the text in front of the NUL
+            # (F39: its start was not clamped; the main pass hashed and compared what an earlier call had left behind the text)
+            for u in ins[:2]:
+                u = [c for c in u[:6] if c] or [0x61]
+                arr = u[:rng.randint(1, len(u))] + [0] + [0x20] + u + [0] + [0x20, 0x2e] + u[:3]
+                for mode in (2, 32, 2 | 4):
+                    cur = rng.randint(arr.index(0) + 1, len(arr) - 1)
+                    self.calls.append(("FWD", lst, "FWD %s %d %d %d 28 %s - -" % (lst, mode, rng.choice([7, len(arr), 2 * len(arr)]), cur, common.wide(arr))))
             for b in self.shared_cells:
                 for cap in (2, 3, 30):
                     self.calls.append(("BWD", lst, "BWD %s 4 %d - 12 %s - -" % (lst, cap, common.wide(b))))
